@@ -12,6 +12,7 @@ RULE = ('one real CA (arbitrary-address-capable or fixed; claiming or bypassed) 
         'frames with a lower or higher NAME for the address the CA currently announces, at instants before, inside and after the veto window; every send entry point '
         '(send_pgn single / RTS-CTS / BAM, send_message, send_request incl. the claim PGN, Dm22, Dm14Query, Dm1 via its timer) is called at drawn instants, and in some runs re-entrantly from inside the stack\'s own k-th transmission; send_request uses PGNs around the address-claim PGN. '
         'non-trivial = at least one call was made while the CA was not operational and one while it was; distinct = distinct scenario JSON')
+FAULT_COUNTERS = {"application call re-entrantly inside the stack's own transmission": 'reentrant_calls', 'address losses to the scripted contender (runs)': 'losses', 'address moves (runs)': 'moves'}
 REQUIRED_PROBES = ['calls_operational', 'calls_not_operational', 'raised', 'frames_judged', 'losses', 'moves', 'claim_requests_from_254', 'reentrant_calls']
 EPS = ['pgn_short', 'pgn_long', 'pgn_bam', 'message', 'request', 'request_claim', 'dm22', 'dm14', 'pgn_short', 'message']
 X_ADDR = 0x55
